@@ -250,6 +250,27 @@ def token_mutations(check, family, seed, nprogs, per=6):
     return list(dict.fromkeys(out))
 
 
+def retain_results(check, wp, programs, seed, n, k=12):
+    """a tree stays what it was while other inputs are parsed afterwards (incl. garbage collections): n tasks, each one program
+    followed by k others of both families.  Returns list of (task, result) for the tasks that ran."""
+    import random as _r
+    rng = _r.Random(seed * 271 + 9)
+    progs_ = [p for p in programs if len(p["src"]) < 4000]
+    tasks = []
+    for _ in range(n):
+        first = rng.choice(progs_)
+        others = [rng.choice(progs_) for _ in range(k)]
+        tasks.append({"op": "retain_check", "src": first["src"], "ver": first["ver"], "limit_ms": 20000,
+                      "others": [{"src": o["src"], "ver": o["ver"]} for o in others]})
+    out = []
+    for t, r in zip(tasks, wp.run(tasks)):
+        if r.get("panic") or r.get("hang") or r.get("crash") or r.get("skip"):
+            continue
+        check.count()
+        out.append((t, r))
+    return out
+
+
 NOT_SCALABLE = {"heredoc/empty", "nowdoc/empty", "stmt+halt"}     # D6 (known finding) / must be last
 
 
